@@ -43,7 +43,7 @@ class Lab:
     shards = {"quick": 4, "thorough": 16}
     # wall-clock cap for the generation phase of one shard (s); running out of
     # it is "inconclusive for the remaining cases", never a violation
-    time_budget = {"quick": 90, "thorough": 1500}
+    time_budget = {"quick": 240, "thorough": 3600}
     exhaustive_note = None
 
     known_open = frozenset()
